@@ -167,7 +167,7 @@ class IPv6(object):
         #   Hence, we add the above ignore list to avoid the roughly match that
         #   includes whitespace.
         self.pattern = (
-            r"(?<![:\\.\\-a-z0-9])((([0-9a-f]{1,4})(:[0-9a-f]{1,4}){7})|"
+            r"(?<![:\\.\-a-z0-9])((([0-9a-f]{1,4})(:[0-9a-f]{1,4}){7})|"
             r"(([0-9a-f]{1,4}(:[0-9a-f]{0,4}){0,5}))([^.])::(([0-9a-f]{1,4}"
             r"(:[0-9a-f]{1,4}){0,5})?))(/\d{1,3})?(?![:\\a-z0-9])"
         )
